@@ -84,7 +84,14 @@ def hook_sender(R, env, prog, dctx, arm, variant, role_field, rule):
 
 
 def pending_owner_payload(prog, t, crate):
-    return t[0] == "payload" and loaded_field(prog, t[1], "state", ["pending_owner"], crate)
+    """the Some payload of the stored pending_owner — also after `.take()` / `.filter(..)` / `.as_ref()`"""
+    if t[0] != "payload":
+        return False
+    if loaded_field(prog, t[1], "state", ["pending_owner"], crate):
+        return True
+    from engine.analysis import ok_payload
+    t2 = ok_payload(t[1], t[2])
+    return t2[0] == "payload" and loaded_field(prog, t2[1], "state", ["pending_owner"], crate)
 
 
 def accept_ownership(R, env, prog, crate, dctx, arm, rule):
@@ -106,7 +113,8 @@ def accept_ownership(R, env, prog, crate, dctx, arm, rule):
     R.ob(rule, "AcceptOwnership:nominee-guard", ok, "success exit reachable without `pending_owner == info.sender`: %s" % (off,), loc=off["loc"] if off else None, fn=hk, found=found)
     # Admin::set behind the same cut, with the nominee as value
     edges = pass_edges(hctx, G, prog, env.depth)
-    reach = hctx.with_removed(edges).settle().T.reach
+    from engine.analysis import fail_world
+    reach = fail_world(hctx.with_removed(edges), G).settle().T.reach
     n = 0
     for op in storage_ops_deep(prog, hctx, env.depth):
         if op["type"] == "Admin" and op["op"] == "set" and ns_of(prog, op["args"][0]) == "admin":
